@@ -56,8 +56,9 @@ claim(
     "Partial (mechanisms 1, 2 and 5 of 5 on stack values; map operations are not reachable). On the real Value::eq / Value::not_equals: for numbers over all 37x37 simple unit "
     "pairs `!=` is exactly the negation of `==`, a quantity equals itself expressed in any convertible unit in both argument orders, and == is reflexive; on a universe of 13 "
     "stack values (null, booleans, numbers, quoted/unquoted strings, empty comma/space/bracketed lists, an argument list, an empty map) == is symmetric and reflexive and != its "
-    "negation; colors: byte and rgba() spellings compare equal in both orders. Bounded stand-in (value universe), not counted as proved. NOT covered: non-empty lists and maps, "
-    "SassMap insert/remove/merge (dropping a Value is beyond Kani here), transitivity, duplicate-key check, index().",
+    "negation; colors: byte and rgba() spellings compare equal in both orders; SassMap get_ref/contains on a concrete four-entry map find an entry exactly when a key is == to the probe "
+    "(unit conversion, quote-insensitive strings) and return the first such entry, iteration is in insertion order. Bounded stand-ins (value universe, one map), not counted as proved. NOT covered: non-empty lists, "
+    "SassMap ==/insert/remove/merge/get/keys/values (dropping a Value is beyond Kani here; map == does not finish), transitivity, duplicate-key check, index().",
     K_TRUST + " Values are never dropped in harnesses (ManuallyDrop).",
     "Kani contracts on Value::eq/not_equals over symbolic units and a bounded value universe",
     "DESIGN.md 5/C09",
